@@ -694,6 +694,12 @@ static void copy_struct_mem(void) {
     println("  mov %d(%%rax), %%dl", i);
     println("  mov %%dl, %d(%%rdi)", i);
   }
+
+  // The psABI requires the callee to return the address of the
+  // caller-provided buffer in RAX. Callers use it as the value of the
+  // call; the source object may live in this frame, which is dead
+  // after the return.
+  println("  mov %%rdi, %%rax");
 }
 
 static void builtin_alloca(void) {
